@@ -136,8 +136,9 @@ impl BufferParser for Parser {
                     Ok(CallbackAction::NoUpdate)
                 }
                 2 => {
-                    caret.pos.x = self.avt_repeat_char as i32;
-                    caret.pos.y = ch as i32;
+                    // ^V^H <row> <col>: both are 1-based (FSC-0025), as the writer emits them for "home"
+                    caret.pos.y = max(0, self.avt_repeat_char as i32 - 1);
+                    caret.pos.x = max(0, ch as i32 - 1);
                     buf.terminal_state.limit_caret_pos(buf, caret);
 
                     self.avt_state = AvtReadState::Chars;
